@@ -101,6 +101,7 @@ def _bsum_lemma():
 
 
 R.lemma("bsum_prefix", "C16", _bsum_lemma)
+R.lemma("bsum_prefix", "C10", _bsum_lemma)
 
 R.contract(
     STG + "__init__", BOTH,
